@@ -9,7 +9,7 @@ import facts
 import panic
 import q
 from facts import walk, walk_with_path, peel, call_is, unblock, variant_of, strip_ref, subpat, pat_str, lit, or_pats
-from show import show
+from show import show, show_fn
 
 
 # ---- evaluation of char predicates (closure bodies) on concrete chars, with std's ASCII tables
@@ -196,6 +196,8 @@ def run(rep):
     rep.describe("PROGRESS", "each cycle of tokenise's loop consumes >= 1 char or returns; parse_expr's loop consumes a token per cycle")
     import core
     core.import_rules(rep, "c07", {"LOCKSTEP"})
+    import c07
+    panic.LOCKSTEP_PAIR_IDS = {(r[1], r[0]) for r in c07.lockstep_roles(F).values()}
     panic.LOCKSTEP_OK = all(i.status == "discharged" for i in rep.instances if i.rule == "LOCKSTEP") and any(i.rule == "LOCKSTEP" for i in rep.instances)
     R = run_panic(rep, F, ["LOAD"], floor=30, extra_rules=(d_tokens_index,))
     # ---------------------------------------------------------------- PROGRESS
@@ -280,8 +282,8 @@ def run(rep):
                     rep.lost("PROGRESS", key, "arm is inside the progress grammar", str(e))
         cw = F.fn("tokeniser::consume_while")
         if cw is not None:
-            s = show(cw.body)
-            ok = "loop if let Option::Some(&$ch) = <I>::peek(it) {if Fn::call(condition, (ch)) {{<T>::unwrap(Iterator::next(it)); <T, A>::push(v, ch)}} else {break}} else {break}" in s
+            s = show_fn(cw)
+            ok = s == "fn($it, $condition) {let $v = <T>::new(); loop if let Option::Some(&$ch) = <I>::peek(it) {if Fn::call(condition, (ch)) {{<T>::unwrap(Iterator::next(it)); <T, A>::push(v, ch)}} else {break}} else {break}; v}"
             rep.check(ok, "PROGRESS", "PROGRESS/consume_while", cw.sp, "consume_while consumes one char per accepted cycle and stops at the first rejected char", s[:80])
     pe = F.fn("parser::parse_expr")
     pl = F.fn("parser::parse_led")
@@ -294,8 +296,8 @@ def run(rep):
         ok = b.get("k") == "Match" and call_is(peel(b["scrut"]), "Iterator::next")
         rep.check(ok, "PROGRESS", "PROGRESS/" + nm, f.sp, nm + " starts by consuming a token (so each cycle of the Pratt loop makes progress)", show(b.get("scrut"))[:60] if b.get("k") == "Match" else b.get("k"))
     if pe is not None:
-        s = show(pe.body)
-        ok = "loop if let Option::Some(&$next) = <I>::peek(it) {{if (right_binding_power Ge Token::binding_power(next)) {break}; left = parser::parse_led(left, it)?}} else {break}" in s
+        s = show_fn(pe)
+        ok = s == "fn($it, $right_binding_power) {let $left = parser::parse_nud(it)?; loop if let Option::Some(&$next) = <I>::peek(it) {{if (right_binding_power Ge Token::binding_power(next)) {break}; left = parser::parse_led(left, it)?}} else {break}; Result::Ok(left)}"
         rep.check(ok, "PROGRESS", "PROGRESS/parse_expr", pe.sp, "Pratt loop: peek; break or parse_led (consumes) ; no other cycle", s[:80])
     rep.floor("PROGRESS", 14)
     rep.exhaustive = True
